@@ -83,7 +83,7 @@ func childLimits() {
 				base = size
 			}
 			// freshly allocated zeroed memory is mapped long before it is resident: watch both
-			if rss*page > limit || (size-base)*page > 8*limit {
+			if rss*page > limit || (size-base)*page > 64*limit {
 				fmt.Fprintf(os.Stderr, "fatal error: c08 watchdog: out of memory (resident %d MiB, mapped +%d MiB, limit %d MiB)\n",
 					rss*page>>20, (size-base)*page>>20, limit>>20)
 				os.Exit(2)
